@@ -120,6 +120,16 @@ Definition revs_compat_of (re : rentry) (p : ipkg) : bool :=
   end.
 Definition revs_compat (e : entry) (p : ipkg) : bool := revs_compat_of (read_entry e) p.
 
+(* every version involved is a valid version (C01's model of isvalid_version_re, without the trailing
+   newline Python's $ tolerates) *)
+Definition versions_valid_of (re : rentry) (p : ipkg) : bool :=
+  valid_version_core (p_ver (i_pkg p))
+  && match re with
+     | None => true
+     | Some (_, vs, us) => forallb (fun w => valid_version_core (w_ver w)) (vs ++ us)
+     end.
+Definition versions_valid (e : entry) (p : ipkg) : bool := versions_valid_of (read_entry e) p.
+
 (* the pinned tree additionally: K1 an unaffected glob, K2 a slot on a glob / rle / rge at -r0 *)
 Definition slot_dropped (w : wrange) : bool :=
   negb (is_nil (w_slot w))
@@ -156,5 +166,7 @@ Definition spec_entry_differs (pool : list ipkg) (e : entry) (r : val) : bool :=
   | VS b => existsb (fun pb => negb (N.eqb (snd pb) (if want (fst pb) then 49 else 48))) (combine pool b)
   | _ => true
   end.
+Definition versions_bad (pool : list ipkg) (e : entry) (_ : val) : bool :=
+  let re := read_entry e in negb (forallb (versions_valid_of re) pool).
 Definition revs_bad (pool : list ipkg) (e : entry) (_ : val) : bool :=
   let re := read_entry e in negb (forallb (revs_compat_of re) pool).
